@@ -230,6 +230,13 @@ class InputFactory:
                         out.append({'kind': d[0], 'values': [mint(m, t) for t in d[1]]})
                 return {'Rng': out}
             return SymInput(sort, r, ex)
+        if sort == 'ObjEncoder':
+            # a pure per-object encoder: three integer channels, each a function of the object only
+            om = I.objmodel
+            fs = [z3.Function(I.fresh_name(f'{hint}_c{k}'), om.sort, z3.IntSort()) for k in range(3)]
+            from .model import Builtin
+            fn = Builtin(hint, lambda I_, a, k: [f(a[0].term) for f in fs])
+            return SymInput(sort, fn, lambda m: {'ObjEncoder': 'default-triple'})
         if sort == 'ObjPred':
             # arbitrary predicate on grid objects (a *function*: equal objects, equal answers)
             om = I.objmodel
